@@ -728,6 +728,8 @@ pub fn bombs(ev: Ev) -> Vec<String> {
         _ => vec![
             "0", "1", "2", "0.5", "20", "21", "27", "28", "170", "171", "99999", "1000000", "4294967296", "9007199254740993", "100000000000000000000", "1e9", "(-1)", "(-0.5)", "(-5)", "(1/0)", "(-1/0)", "(0/0)",
             "0.000001", "79228162514264337593543950335", "(-1/e)", "(0-0.36787944117144233)", "@", "123456789.123456789",
+            // just above the branch point of the Lambert W function, where its iteration converges slowest
+            "(0-0.36787944)", "(0-0.3678794411714384)", "(0-0.36787944117143867)", "(0-0.367879441)", "(0-0.3678794)", "(0-0.36787944117)",
         ],
     };
     let big: Vec<String> = big.into_iter().filter(|s| *s != "1e9").map(|s| s.to_string()).collect();
@@ -1144,7 +1146,9 @@ pub fn repeated_operand_family(ev: Ev) -> Vec<(String, String)> {
         Ev::I64 => vec![("7", "(-3)"), ("(-7)", "3"), ("(-7)", "(-3)"), ("7", "3"), ("10", "(-4)"), ("(-5)", "2"), ("9", "2"), ("(-2)", "4")],
         Ev::Cpx => vec![("(1+2i)", "2"), ("(-3)", "2"), ("2i", "(1-i)"), ("(-2)", "4")],
         Ev::Dec => vec![("7", "(-3)"), ("(-7)", "3"), ("(-7)", "2"), ("2.5", "0.5"), ("(-2.5)", "2"), ("(-2)", "4"), ("0.1", "0.3")],
-        _ => vec![("7", "(-3)"), ("(-7)", "3"), ("(-7)", "2"), ("5", "(-2)"), ("2.5", "0.5"), ("(-2.5)", "2"), ("(-2)", "4"), ("(-5)", "2"), ("0.1", "0.3"), ("(3-7)", "2")],
+        _ => vec![("7", "(-3)"), ("(-7)", "3"), ("(-7)", "2"), ("5", "(-2)"), ("2.5", "0.5"), ("(-2.5)", "2"), ("(-2)", "4"), ("(-5)", "2"), ("0.1", "0.3"), ("(3-7)", "2"),
+            // (n/d)*d is not n in doubles for these (seeded change C15-r11)
+            ("1", "49"), ("3", "98"), ("5", "(-49)"), ("1", "(40+9)")],
     };
     let mut ops: Vec<&str> = vec!["+", "-", "*", "/", "^"];
     if has_fact_mod(ev) {
